@@ -5,6 +5,7 @@ package gen
 import (
 	"encoding/json"
 	"fmt"
+	"sort"
 	"strconv"
 )
 
@@ -225,4 +226,32 @@ func AllBytes() []byte {
 		b[i] = byte(i)
 	}
 	return b
+}
+
+// ThresholdSizes lists, in ascending order, every size n in [lo, hi] of the form
+// b-1, b or b+1 with b a "round" number at which code is likely to switch
+// strategy (chunking, parallel split, table growth): 2^k, 3·2^k, 10^k, 2·10^k,
+// 5·10^k.
+func ThresholdSizes(lo, hi int) []int {
+	seen := map[int]bool{}
+	var out []int
+	add := func(b int) {
+		for d := -1; d <= 1; d++ {
+			if n := b + d; n >= lo && n <= hi && !seen[n] {
+				seen[n] = true
+				out = append(out, n)
+			}
+		}
+	}
+	for b := 1; b > 0 && b <= hi+1; b <<= 1 {
+		add(b)
+		add(3 * b)
+	}
+	for b := 1; b > 0 && b <= hi+1; b *= 10 {
+		add(b)
+		add(2 * b)
+		add(5 * b)
+	}
+	sort.Ints(out)
+	return out
 }
